@@ -151,6 +151,9 @@ def count_shape(ctx, F, nx, ii):
             good &= ctx.check(bool(shape), "C13.D3.exit-comparison", "next:exit-cmp",
                               "the schedule ends (None) exactly when the attempt counter > max_attempts (found: counter %s max_attempts)" % op, b["term"]["span"])
     good &= ctx.check(found, "C13.D3.exit-comparison", "next:no-exit-cmp", "next() compares the attempt counter with max_attempts", nx.span)
+    # the schedule ends for no other reason: no `?` on an intermediate Option (an overflowing power, a failed conversion) may end it early
+    early = [c for c in F.inlined(nx).calls() if strip_generics(c.callee) == "core::ops::try_trait::FromResidual::from_residual" and c.dest is not None]
+    good &= ctx.check(not early, "C13.D3.no-early-end", "next:ends-on-intermediate-none", "next() never ends the schedule because an intermediate computation yielded None (`?`)", (early or [nx])[0].span)
     # writes to the counter's place in the state
     writes = []
     for i, j, pl, rv, s in nx.assigns():
@@ -237,6 +240,16 @@ def run(ctx):
                 if v not in (None, 0):
                     return "D4: division by the non-zero constant %s" % v
         return None
+    # the consumers of the schedule must not turn a saturated delay into a panic either: `Instant + Duration` / `SystemTime + Duration`
+    # overflow on Duration::MAX (tokio::time::sleep(duration) saturates instead)
+    cons = [b for p_, b in sorted(F.bodies.items()) if b.crate == "selium" and p_.startswith(("selium::keep_alive::pubsub::", "selium::keep_alive::reqrep::", "<selium::keep_alive::"))]
+    ctx.touch(*cons)
+    for b_ in cons:
+        for c in b_.calls():
+            if strip_generics(c.callee) in ("core::ops::arith::Add::add", "core::ops::arith::AddAssign::add_assign", "core::ops::arith::Sub::sub") and \
+                    (c.self_ty or "").split("<")[0].endswith(("time::Instant", "time::SystemTime", "instant::Instant")) and "Duration" in " ".join(c.arg_tys):
+                ctx.fail("C13.D1.consumer-arithmetic", "deadline-arithmetic:%s" % b_.path.rsplit("::", 2)[-2], "%s computes a deadline with `%s + Duration`, which panics for a saturated delay (use sleep(duration) / checked_add)" % (b_.path, c.self_ty.rsplit("::", 1)[-1]), c.span)
+    ctx.ok("C13.D1.consumer-arithmetic", "no deadline arithmetic on the yielded delay in %d keep-alive bodies" % len(cons))
     sites = panics.analyse(ctx, bodies, "C13.D1.arithmetic", extra_rules=[sub_one, div_const], include_alloc=False, narrowing=True, F=F)
     ctx.floor("C13.D1.arithmetic.bodies", len(bodies), 3)
 
